@@ -39,7 +39,8 @@ CLAIMED = {
             'output column the marginal-inverse transform of exactly that draw, over seeded '
             'populations of tables/configurations/seed kinds with foreign activity on the global '
             'generator between calls; DKW/Hoeffding bands (false alarm <= 1e-9 per run) as '
-            'protocol-independent fallback. Sampled, not exhaustive.',
+            'protocol-independent fallback; kernel-estimate marginals compared with the weighted '
+            'kernel mixture recomputed from their parameters. Sampled, not exhaustive.',
             'Correctness of percent_point/cdf (C03) and of the correlation estimate (C02) is '
             'assumed; numpy MT19937, scipy.stats.norm trusted.', '4/C01'),
     'C05': ('fault-schedule simulation of failing plug-in marginals',
@@ -74,14 +75,15 @@ CLAIMED = {
             'operation, against an in-process twin and a twin forked into its own process '
             '(immune to class-level or module-level shared state); crash points of one '
             'representative call per sampler class enumerated (all of them in the thorough '
-            'tier).',
+            'tier); a fit must leave the generator stored from the constructor seed untouched.',
             'Twin and live run the same code; thread-level interleavings inside the swap are out '
             'of scope; scipy internal draws seen only through state digests.', '4/C15'),
     'C16': ('allocator-fault simulation + independent regular-vine checker',
             'Every vine fitted from seeded tables (2-7 columns, |tau| patterns incl. ties) is '
             'checked by an independent regular-vine validity checker under >= 3 contents of '
             'uninitialised memory chosen by the simulator; vine type x truncation enumerated per '
-            'table.',
+            'table; a third of the vines is inspected again after sample/likelihood/export and '
+            'after reading the export back.',
             'select_copula taken as given (C11); scipy.stats.kendalltau trusted.', '4/C16'),
     'C17': ('allocator-fault differential + RNG-seam refinement',
             'Edge data flow recomputed independently; get_likelihood must be bit-identical under '
@@ -92,7 +94,8 @@ CLAIMED = {
             'Seeded histories of fits (constant/non-constant/refusing/invalid data, injected '
             'plug-in failures, differing allocator garbage) on every model class; after the last '
             'fit the live model must be observably identical to a fresh model fitted once, also '
-            'after the object was used between fits or a fit was interrupted at a crash point; '
+            'after the object was used between fits or a fit was interrupted at a crash point, '
+            'the fresh model being fitted under another state of the global generator; '
             'misuse must raise NotFittedError/ValueError per the reference model.',
             'Twin and live run the same code: a fit that is wrong but history-independent is '
             'invisible (C03/C04).', '4/C19'),
